@@ -179,16 +179,71 @@ fn perm_table(env: &str, n: usize, trials: u64, base: u64, f: &dyn Fn(usize, u64
     json!({"kind": "perm", "env": env, "n": n, "N": trials, "counts": counts.into_iter().map(|(p, c)| json!([p, c])).collect::<Vec<_>>()})
 }
 
+/// position-by-item and pairwise-order tables; the pairwise table also carries the number of EVEN permutations (a uniformly
+/// distributed permutation of two or more items is even with probability exactly 1/2, whatever algorithm produced it)
 fn pos_pair_tables(env: &str, n: usize, trials: u64, base: u64, f: &dyn Fn(usize, u64, u32) -> Vec<usize>) -> (Value, Value) {
     let mut pos = vec![vec![0u64; n]; n];
     let mut pair = vec![vec![0u64; n]; n];
     let mut where_ = vec![0usize; n];
+    let mut even = 0u64;
+    let mut seen = vec![false; n];
     for t in 0..trials {
         let p = f(n, base.wrapping_add(t), (t % 3) as u32);
         for (k, item) in p.iter().enumerate() { pos[*item][k] += 1; where_[*item] = k; }
         for i in 0..n { for j in 0..n { if i != j && where_[i] < where_[j] { pair[i][j] += 1; } } }
+        // parity = parity of (n - number of cycles)
+        for x in seen.iter_mut() { *x = false; }
+        let mut cycles = 0usize;
+        for i in 0..n { if !seen[i] { cycles += 1; let mut j = i; while !seen[j] { seen[j] = true; j = p[j]; } } }
+        if (n - cycles) % 2 == 0 { even += 1; }
     }
-    (json!({"kind": "pos", "env": env, "n": n, "N": trials, "counts": pos}), json!({"kind": "pair", "env": env, "n": n, "N": trials, "counts": pair}))
+    (json!({"kind": "pos", "env": env, "n": n, "N": trials, "counts": pos}), json!({"kind": "pair", "env": env, "n": n, "N": trials, "counts": pair, "even": even}))
+}
+
+/// Digits of three standard bijective codes of a permutation p (p[k] = item processed k-th).  Each code maps the n!
+/// permutations one-to-one onto the digit vectors with digit i ranging over 0..=i, so under a uniformly distributed
+/// permutation EVERY digit of EVERY code is uniform on its range - whatever algorithm drew the permutation:
+///   0  the swap indices of a Fisher-Yates shuffle running from the last position down to the second,
+///   1  the swap indices of a Fisher-Yates shuffle running from the first position up,
+///   2  the Lehmer code (number of later entries that are smaller).
+/// Returns per code a vector d with d[i] in 0..=i, i = 0..n-1 (d[0] = 0).
+fn codes(p: &[usize]) -> [Vec<usize>; 3] {
+    let n = p.len();
+    // code 0: a = identity; for i = n-1 down to 1: j = index of p[i] in a; swap(a[i], a[j])
+    let mut a: Vec<usize> = (0..n).collect();
+    let mut at: Vec<usize> = (0..n).collect();      // at[item] = index in a
+    let mut d0 = vec![0usize; n];
+    for i in (1..n).rev() {
+        let j = at[p[i]];
+        d0[i] = j;
+        let (x, y) = (a[i], a[j]);
+        a.swap(i, j); at[x] = j; at[y] = i;
+    }
+    // code 1: for i = 0 up to n-2: j = index (>= i) of p[i]; digit = j - i in 0..=n-1-i, stored at index n-1-i
+    let mut a: Vec<usize> = (0..n).collect();
+    let mut at: Vec<usize> = (0..n).collect();
+    let mut d1 = vec![0usize; n];
+    for i in 0..n.saturating_sub(1) {
+        let j = at[p[i]];
+        d1[n - 1 - i] = j - i;
+        let (x, y) = (a[i], a[j]);
+        a.swap(i, j); at[x] = j; at[y] = i;
+    }
+    // code 2: Lehmer code, digit of position i stored at index n-1-i
+    let mut d2 = vec![0usize; n];
+    for i in 0..n { d2[n - 1 - i] = (i + 1..n).filter(|j| p[*j] < p[i]).count(); }
+    [d0, d1, d2]
+}
+
+/// per code, per digit index i, the histogram over 0..=i
+fn code_tables(env: &str, n: usize, trials: u64, base: u64, f: &dyn Fn(usize, u64, u32) -> Vec<usize>) -> Value {
+    let mut h: Vec<Vec<Vec<u64>>> = (0..3).map(|_| (0..n).map(|i| vec![0u64; i + 1]).collect()).collect();
+    for t in 0..trials {
+        let p = f(n, base.wrapping_add(t), (t % 3) as u32);
+        let c = codes(&p);
+        for k in 0..3 { for i in 1..n { h[k][i][c[k][i]] += 1; } }
+    }
+    json!({"kind": "code", "env": env, "n": n, "N": trials, "counts": h})
 }
 
 fn main() {
@@ -211,7 +266,7 @@ fn main() {
     let mut steps = 0u64;
     let mut emit = |v: Value, f: &mut std::io::BufWriter<std::fs::File>| {
         let n = v["n"].as_u64().unwrap();
-        cells += match v["kind"].as_str().unwrap() { "perm" => (1..=n).product::<u64>(), "pos" => n * n, "pair" => n * (n - 1) / 2, _ => 0 };
+        cells += match v["kind"].as_str().unwrap() { "perm" => (1..=n).product::<u64>(), "pos" => n * n, "pair" => n * (n - 1) / 2 + 1, "code" => 3 * (n * (n + 1) / 2), _ => 0 };
         tables += 1;
         steps += v["N"].as_u64().unwrap_or(3);
         writeln!(f, "{}", v).unwrap();
@@ -231,6 +286,36 @@ fn main() {
     for n in [8usize, 16] {
         let (a, b) = pos_pair_tables("menv_mixed", n, trials / 2, base ^ (0xB0 + n as u64) << 32, &menv_mixed);
         emit(a, &mut f); emit(b, &mut f);
+    }
+    // EVERY batch size 2..64 (a size-dependent shuffle can go wrong at any one of them): position-by-item and pairwise tables
+    // with >= 2.3 * 10^5 steps per size (the count is rounded up to an even multiple of the size so that the expectation of
+    // every cell is an integer); computed on all cores
+    {
+        let nthreads = std::thread::available_parallelism().map(|x| x.get()).unwrap_or(4).min(14);
+        let sizes: Vec<usize> = (2..=64).collect();
+        let results: std::sync::Mutex<Vec<(usize, Value, Value)>> = std::sync::Mutex::new(Vec::new());
+        let next = std::sync::atomic::AtomicUsize::new(0);
+        std::thread::scope(|sc| {
+            for _ in 0..nthreads {
+                sc.spawn(|| loop {
+                    let i = next.fetch_add(1, std::sync::atomic::Ordering::Relaxed);
+                    if i >= sizes.len() { break; }
+                    let n = sizes[i];
+                    let mut mult = (230_400 * scale + n as u64 - 1) / n as u64;
+                    if mult % 2 == 1 { mult += 1; }
+                    let fresh = ![8usize, 16, 32, 64].contains(&n);
+                    let (a, b) = if fresh { pos_pair_tables("env_every_size", n, mult * n as u64, base ^ (0x300 + n as u64) << 32, &env_new_orders) } else { (Value::Null, Value::Null) };
+                    // the digits of the three codes, every size: a step count of 2.3 * 10^5 (expectations need not be integers here)
+                    let c = code_tables("env_every_size", n, 230_400 * scale, base ^ (0x400 + n as u64) << 32, &env_new_orders);
+                    let mut r = results.lock().unwrap();
+                    r.push((n, a, b));
+                    r.push((n, c, Value::Null));
+                });
+            }
+        });
+        let mut r = results.into_inner().unwrap();
+        r.sort_by_key(|x| x.0);
+        for (_, a, b) in r { if !a.is_null() { emit(a, &mut f); } if !b.is_null() { emit(b, &mut f); } }
     }
     // same generator state, same size => same index permutation, whatever the instructions
     for n in [2usize, 3, 5, 8, 13, 64] {
